@@ -710,7 +710,8 @@ func (context *layoutContext) makePage(rootBox bo.BlockLevelBoxITF, pageType uti
 		overflow := context.layoutFootnote(reportedFootnote)
 		if overflow && i != 0 {
 			context.reportFootnote(reportedFootnote)
-			context.reportedFootnotes = context.reportedFootnotes[i:]
+			// the footnotes not laid out yet, from the local list
+			context.reportedFootnotes = append([]Box(nil), reportedFootnotes[i:]...)
 			break
 		}
 	}
